@@ -44,6 +44,7 @@ type scanProfile struct {
 	// variants carry the same Group and must give identical numbers when RelationalCLI is set.
 	Expand        func(rng *rand.Rand, sc cases.ScanCase) []cases.ScanCase
 	RelationalCLI bool
+	Extra         []cases.ScanCase // further hand-shaped repositories (wide trees ...)
 }
 
 var fieldsOf = map[string][]string{
@@ -477,6 +478,7 @@ func runScanProfile(c *Ctx, p scanProfile) {
 		gp.NTag = rng.Intn(p.Gen.NTag + 1)
 		cli = append(cli, genCase(rng, fmt.Sprintf("r%d", i+1), gp))
 	}
+	cli = append(cli, p.Extra...)
 	runs := env.parallelCLI(cli, cliOpt{Progress: p.Progress}, 16)
 	nrun := 0
 	for i, r := range runs {
